@@ -1,6 +1,7 @@
 package main
 
 import (
+	"go/types"
 	"fmt"
 	"go/token"
 	"strings"
@@ -241,7 +242,7 @@ func checkC05(c *Ctx, r *Report) {
 				return
 			}
 			key := fmt.Sprintf("%s:%s-status", fname(fn), ci.Name)
-			if mentionsField(st, pkgHandlers, "responseRecorder", "status", 2) || mentionsField(st, pkgHandlers, "streamingResponseRecorder", "status", 2) {
+			if mentionsRecorderStatus(c, st, 3) {
 				r.OK("C05-R4", key, in.Pos(), "status relayed from the backend attempt's recorder")
 			} else {
 				r.Bad("C05-R4", key, in.Pos(), "a backend error is relayed with a status other than the backend's own")
@@ -384,7 +385,7 @@ func checkStreamingGaveUp(c *Ctx, r *Report) {
 		found := false
 		for _, g := range withAnon(fn) {
 			eachInstr(g, func(in ssa.Instruction) {
-				if st, ok := in.(*ssa.Store); ok && isField(st.Addr, pkgHandlers, "streamingResponseRecorder", "status") {
+				if st, ok := in.(*ssa.Store); ok && isRecorderStatusAddr(c, st.Addr) {
 					found = true
 				}
 			})
@@ -466,7 +467,7 @@ func checkStreamingGaveUp(c *Ctx, r *Report) {
 	ok := false
 	if transform != nil {
 		for _, cf := range condFacts(transform.Block()) {
-			if bo, isB := cf.Cond.(*ssa.BinOp); isB && bo.Op == token.GEQ && !cf.True && mentionsField(bo.X, pkgHandlers, "streamingResponseRecorder", "status", 2) {
+			if bo, isB := cf.Cond.(*ssa.BinOp); isB && bo.Op == token.GEQ && !cf.True && mentionsRecorderStatus(c, bo.X, 3) {
 				if k, _ := constInt(bo.Y); k == 400 {
 					ok = true
 				}
@@ -478,4 +479,61 @@ func checkStreamingGaveUp(c *Ctx, r *Report) {
 	} else {
 		r.Bad("C05-R2", key, w.Pos(), "the handler starts the 200 event stream without (unconditionally) testing the recorder's status first")
 	}
+}
+
+
+var recorderStatusMemo map[*types.Var]bool
+
+// recorderStatusFields: the int field(s) in which the handlers' response recorders keep the status the proxy reported:
+// whatever their WriteHeader(int) method stores its parameter into (directly or in an embedded struct).
+func recorderStatusFields(c *Ctx) map[*types.Var]bool {
+	if recorderStatusMemo != nil {
+		return recorderStatusMemo
+	}
+	out := map[*types.Var]bool{}
+	for _, f := range c.Funcs {
+		if f.Parent() != nil || f.Name() != "WriteHeader" || f.Signature.Recv() == nil || !strings.HasSuffix(fnPkgPath(f), pkgHandlers) || len(f.Params) != 2 {
+			continue
+		}
+		eachInstr(f, func(in ssa.Instruction) {
+			if st, ok := in.(*ssa.Store); ok && st.Val == ssa.Value(f.Params[1]) {
+				if _, fld, ok := fieldOf(st.Addr); ok {
+					out[fld] = true
+				}
+			}
+		})
+	}
+	// the recorded names too (tables of the first version)
+	recorderStatusMemo = out
+	return out
+}
+
+func isRecorderStatusAddr(c *Ctx, addr ssa.Value) bool {
+	if _, fld, ok := fieldOf(addr); ok && recorderStatusFields(c)[fld] {
+		return true
+	}
+	return isField(addr, pkgHandlers, "streamingResponseRecorder", "status") || isField(addr, pkgHandlers, "responseRecorder", "status")
+}
+
+// mentionsRecorderStatus: v is computed from a load of a recorder's status field (or a trivial getter of it).
+func mentionsRecorderStatus(c *Ctx, v ssa.Value, depth int) bool {
+	if v == nil || depth < 0 {
+		return false
+	}
+	if _, fld, ok := fieldOf(v); ok && recorderStatusFields(c)[fld] {
+		return true
+	}
+	if isRecorderStatusAddr(c, v) {
+		return true
+	}
+	in, ok := v.(ssa.Instruction)
+	if !ok {
+		return false
+	}
+	for _, op := range in.Operands(nil) {
+		if *op != nil && mentionsRecorderStatus(c, *op, depth-1) {
+			return true
+		}
+	}
+	return false
 }
